@@ -465,7 +465,7 @@ Proof. vm_compute. repeat split; reflexivity. Qed.
 (* ======================================================================================== *)
 From Verif Require Import C02.Dim_Model C02.Dim_Spec C02.Dim_Proofs_Inv.
 
-(* ---- 16. after ANY history (gate on or off; [fxd]: DeleteQuota as it is / repaired), in EACH
+(* ---- 16. after ANY history (gate on or off; [fxd]: DeleteQuota repaired, as it is now / before the repair), in EACH
         dimension every calculator of the tree holds exactly the current QuotaInfo figures of the
         quotas whose parent it serves: tree nodes (request = min(Request, Max), min, sharedWeight,
         guarantee = Guaranteed) and both caches.  In particular the joint change detectors never
@@ -531,13 +531,14 @@ Example c02_dims_guarantee_nonvacuous :
   /\ dims_prop_case dims_m8_ex (firstn 66 (dims_run_case dims_m8_ex) ++ [60; 60; 10; 10; 40; 40]) = 141.
 Proof. vm_compute. repeat split; reflexivity. Qed.
 
-(* ---- 18. known finding (stream dims, sig 1; findings/C02-delete-keeps-guarantee.md): with the gate
-        on, DeleteQuota hands the deleted quota's USED to its ancestors' Allocated although they were
-        given its GUARANTEED = max(Allocated, Min).  root 100; q1 (parent, min 5) -> q2 (min 30, no
-        pods); q3 asks 100.  q1 is guaranteed 30 through q2 and gets 30, q3 70.  DeleteQuota(q2): the
-        code as it is ([fxd] = false, what /repo does) still reports 30 / 70 — q1 above
-        max(request 5, guaranteed 5): clause 141, shape 1; with the guarantee taken back ([fxd] = true)
-        5 / 95 and the decision procedure accepts ---- *)
+(* ---- 18. regression witness of the defect repaired in /repo (findings/C02-delete-keeps-guarantee.md):
+        with the gate on, DeleteQuota handed the deleted quota's USED to its ancestors' Allocated although
+        they were given its GUARANTEED = max(Allocated, Min).  root 100; q1 (parent, min 5) -> q2 (min 30,
+        no pods); q3 asks 100.  q1 is guaranteed 30 through q2 and gets 30, q3 70.  DeleteQuota(q2): the
+        code before the repair ([fxd] = false) still reported 30 / 70 — q1 above
+        max(request 5, guaranteed 5): clause 141; the code as it is ([fxd] = true, what run_case models)
+        reports 5 / 95 and the decision procedure accepts
+        (corpus/C02/dims/f2-delete-keeps-guarantee.case) ---- *)
 Definition dims_delete_witness : list Z :=
   [103; 6;  3;0;100;100;0;0;0;0;0;0;
      0;1;0;1;100;100;5;5;0;0;  0;2;1;0;100;100;30;30;0;0;  0;3;0;0;100;100;0;0;0;0;
@@ -546,19 +547,18 @@ Definition dims_delete_witness : list Z :=
 Theorem c02_dims_delete_guarantee_refuted :
   exists inp, let '(gate, K, ops) := dims_decode inp in
     gate = true
-    /\ skipn 30 (dims_run_case inp) = [30; 30; -1; -1; 70; 70]
-    /\ dims_prop_case inp (dims_run_case inp) = 141
-    /\ dims_finding_sig inp (dims_run_case inp) = 1
-    /\ skipn 30 (drun_obs gate true K dmgr0 ops) = [5; 5; -1; -1; 95; 95]
-    /\ dims_prop_case inp (drun_obs gate true K dmgr0 ops) = 0.
+    /\ skipn 30 (drun_obs gate false K dmgr0 ops) = [30; 30; -1; -1; 70; 70]
+    /\ dims_prop_case inp (drun_obs gate false K dmgr0 ops) = 141
+    /\ skipn 30 (dims_run_case inp) = [5; 5; -1; -1; 95; 95]
+    /\ dims_prop_case inp (dims_run_case inp) = 0.
 Proof. exists dims_delete_witness. vm_compute. repeat split; reflexivity. Qed.
 Print Assumptions c02_dims_delete_guarantee_refuted.
 
 (* ---- 19. the guarantee chain, gate on: after ANY history with non-negative quantities (create / max /
         min / sharedWeight changes, pods arriving — possibly already bound —, leaving, reserved,
         un-reserved, resized, cluster total, RefreshRuntime of everything after every op; DeleteQuota
-        too when it takes the guarantee back, [fxd] = true — for the code as it is the histories without
-        DeleteQuota), in each dimension and for every live quota k:
+        too when it takes the guarantee back, [fxd] = true, the code as it is — for the code before the
+        repair the histories without DeleteQuota), in each dimension and for every live quota k:
             Guaranteed(k) = max(Allocated(k), Min(k))
             Allocated(k)  = requests of the ASSIGNED pods of k + sum of Guaranteed(c), c child of k
         (by c02_dims_calculators_agree that Guaranteed is the guarantee of k's node in its parent's
